@@ -476,6 +476,65 @@ def _compare(exp, got, fmt, part, case):
     return c.leaves
 
 
+def _same_object_tree(a, b, path=""):
+    """Exact (type- and NaN-aware) equality of two Python / NumPy value
+    trees; returns the path of the first difference or None."""
+    if type(a) is not type(b):
+        return f"{path}: type {type(a).__name__} became {type(b).__name__}"
+    if isinstance(a, dict):
+        if list(a.keys()) != list(b.keys()):
+            return f"{path}: keys changed"
+        for k in a:
+            r = _same_object_tree(a[k], b[k], f"{path}/{k}")
+            if r:
+                return r
+        return None
+    if isinstance(a, (list, tuple)):
+        if len(a) != len(b):
+            return f"{path}: length changed"
+        for i, (x, y) in enumerate(zip(a, b)):
+            r = _same_object_tree(x, y, f"{path}[{i}]")
+            if r:
+                return r
+        return None
+    if isinstance(a, np.ndarray):
+        if a.dtype != b.dtype or a.shape != b.shape or \
+                a.tobytes() != b.tobytes():
+            return f"{path}: array changed"
+        return None
+    if isinstance(a, (float, np.floating)):
+        if not (a == b or (a != a and b != b)):
+            return f"{path}: {a!r} became {b!r}"
+        return None
+    try:
+        same = bool(a == b)
+    except Exception:  # noqa: BLE001
+        same = a is b
+    return None if same else f"{path}: {a!r} became {b!r}"
+
+
+def _input_unchanged(given, spec, fmt, part, case):
+    """Saving must leave the in-memory results as they were (they are used
+    again: saved a second time, returned to the caller)."""
+    ref = build(spec)
+    if part == "sr":
+        # (save_results adds the posterior samples to the dictionary it got
+        # from get_result_dictionary: only the entries that were there count)
+        r = None
+        for k in ref:
+            if k not in given:
+                r = f"/{k}: entry removed"
+            else:
+                r = _same_object_tree(ref[k], given[k], f"/{k}")
+            if r:
+                break
+    else:
+        r = _same_object_tree(ref, given)
+    if r:
+        raise Violation(f"{part}:{fmt}:in-memory-results-modified-by-saving",
+                        r, case)
+
+
 def check_enc(case):
     from nessai.utils.io import save_dict_to_hdf5, save_to_json
 
@@ -491,6 +550,7 @@ def check_enc(case):
             _nessai_call(writer.__name__, writer, given, path, case=case)
             got = _read(path, fmt, "enc", case)
             _compare(exp, got, fmt, "enc", case)
+            _input_unchanged(given, case["spec"], fmt, "enc", case)
     finally:
         shutil.rmtree(tmp, ignore_errors=True)
 
@@ -533,6 +593,7 @@ def check_sr(case):
                 f"read back as {type(got.get('posterior_samples')).__name__}",
                 case)
         _compare(exp, got, fmt, "sr", case)
+        _input_unchanged(given, case["spec"], fmt, "sr", case)
     finally:
         shutil.rmtree(tmp, ignore_errors=True)
 
